@@ -137,6 +137,7 @@ func TestVerif_C16(t *testing.T) {
 	addrs := []string{"0.0.0.1", "255.255.255.255", "10.250.0.1", "127.0.0.1", "1.0.0.0", "224.0.0.1"}
 	var p *vPeer
 	seq := uint32(10)
+	leftInstalled := 0
 	for i := 0; i < nsess; i++ {
 		if !vEnv.mine(i + 1) {
 			continue
@@ -144,15 +145,22 @@ func TestVerif_C16(t *testing.T) {
 		rng := vEnv.rng("c16", i)
 		cfgN := i / 60
 		if a == nil || cfgN != curCfg {
+			var reuse *vP4Srv
 			if a != nil {
 				if p != nil {
 					p.close()
 					p = nil
 				}
+				if leftInstalled > 0 {
+					// the old incarnation is dead for the switch from now on; what it installed stays
+					reuse = a.p4
+					reuse.killClients()
+				}
 				a.stop(vStopWatchdog)
 			}
 			crng := rand.New(rand.NewSource(int64(cfgN)*7919 + vEnv.seed))
 			o := vDefaultOpts(true, vEnv.addr(1))
+			o.ReuseP4 = reuse
 			o.SliceID = uint8(crng.Intn(16))
 			o.HasDefaultTC, o.DefaultTC = true, uint8(crng.Intn(4))
 			o.QFIToTC = map[uint8]uint8{}
@@ -166,12 +174,24 @@ func TestVerif_C16(t *testing.T) {
 			o.AccessIP = []string{"198.18.0.1", "255.255.255.254", "1.1.1.1"}[crng.Intn(3)]
 			var err error
 			a, err = vStartAgent(o)
+			if err != nil && reuse != nil {
+				// the same server served the previous incarnation a moment ago: the new one's start-up clean-up does not get through
+				c16Drain(res, a, map[string]interface{}{"phase": "start-up against a populated switch", "left_installed": leftInstalled})
+				res.violate("C16.R10", "startup-cleanup-fails-on-populated-switch", fmt.Sprintf("a new incarnation does not get connected to a switch that still holds the entries of %d sessions of its predecessor (%v): its clean-up writes are refused", leftInstalled, err), map[string]interface{}{"left_installed": leftInstalled})
+				a.stop(vStopWatchdog)
+				a = nil
+				return
+			}
 			if err != nil {
 				res.inconclusive("agent start: " + err.Error())
 				return
 			}
+			if reuse != nil {
+				res.event("startups_against_populated_switch", 1)
+			}
+			leftInstalled = 0
 			curCfg = cfgN
-			c16Drain(res, a, map[string]interface{}{"phase": "start-up (interfaces table)", "slice": o.SliceID})
+			c16Drain(res, a, map[string]interface{}{"phase": "start-up (clean-up, interfaces table)", "slice": o.SliceID})
 		}
 		if p == nil {
 			var err error
@@ -261,8 +281,14 @@ func TestVerif_C16(t *testing.T) {
 			f.Fwd, f.HasDst, f.DstIf = true, true, ie.DstInterfaceAccess
 			c01Request(p, p.modify(vModSpec{Seq: seq + 1, SEID: up, UpFAR: []vFARSpec{f}}), seq+1)
 			c16Drain(res, a, w)
-			c01Request(p, p.deletion(seq+2, up), seq+2)
-			c16Drain(res, a, w)
+			if i%60 >= 52 && (i/60)%2 == 0 {
+				// the last sessions before this incarnation "dies" stay installed: the next one starts against a populated
+				// switch and its clean-up writes are validated like all others
+				leftInstalled++
+			} else {
+				c01Request(p, p.deletion(seq+2, up), seq+2)
+				c16Drain(res, a, w)
+			}
 		}
 		res.event("p4_updates_validated", a.p4.updatesSeen()-before)
 		pc := "mid"
